@@ -408,6 +408,30 @@ func TestVerifC05(t *testing.T) {
 				mon = append(mon, "digest changed by the round trip")
 			}
 		}
+		// the encoding is a function of the VAA's CURRENT fields: a VAA that was encoded or decoded before and is then changed (a field
+		// assigned, a signature appended — both happen in the node) encodes to the changed value, and that encoding decodes back to it
+		if err == nil && i%3 == 0 && len(v.Signatures) < 255 {
+			for _, w := range []*VAA{v, d} {
+				cp := *w // by-value copy, as callers make
+				cp.Nonce ^= 0x5a5a
+				cp.Sequence++
+				sg := &Signature{Index: 200}
+				copy(sg.Signature[:], r.bytes(65))
+				cp.Signatures = append(append([]*Signature{}, w.Signatures...), sg)
+				enc2, merr2 := cp.Marshal()
+				if merr2 != nil {
+					mon = append(mon, "Marshal of a changed VAA failed: "+merr2.Error())
+					continue
+				}
+				d2, err2 := Unmarshal(enc2)
+				if err2 != nil {
+					mon = append(mon, "the encoding of a changed VAA is rejected: "+err2.Error())
+				} else if d2.Nonce != cp.Nonce || d2.Sequence != cp.Sequence || len(d2.Signatures) != len(cp.Signatures) || d2.SigningMsg() != cp.SigningMsg() {
+					mon = append(mon, fmt.Sprintf("decode(encode(v')) != v' for a VAA v' changed after an earlier encode / decode (nonce %d vs %d, sequence %d vs %d, %d vs %d signatures): the encoder returned stale bytes",
+						d2.Nonce, cp.Nonce, d2.Sequence, cp.Sequence, len(d2.Signatures), len(cp.Signatures)))
+				}
+			}
+		}
 		o.emit(map[string]interface{}{"k": "rt", "plen": plen, "nsig": ns, "in": hex.EncodeToString(enc), "mon": mon})
 		verifDecodeCase(o, "valid", enc)
 		if i%3 != 0 && !verifThorough() {
